@@ -1013,3 +1013,54 @@ Proof.
       rewrite (closable_keys_empty _ _ Hempty), CE_nokeys.
       apply qsum_zero. intros dp _. rewrite Hempty. reflexivity.
 Qed.
+
+(* ------------------------------------------------------------ the hypothesis postings_syntactic *)
+
+(* Two postings on accounts Income:X / commodity NUL-Y and Income:X-NUL / commodity Y have the
+   same position key in the model (name ++ NUL ++ commodity); the model's close stage merges
+   them, the specification (and knut, which keys by account and commodity pointers and never
+   sees a NUL byte in a name) does not. *)
+Open Scope Z_scope.
+Definition unsyn_cfg : balance_cfg :=
+  mkBalanceCfg 0 (of_civil 2020 1 5 + 90) Monthly 0 false true None true [] [] [] [] [] true.
+
+Definition unsyn_journal : list sdirective :=
+  let A := acc_of_name [65;115;115;101;116;115;58;66] in
+  let E := acc_of_name [69;120;112;101;110;115;101;115;58;82] in
+  let income := [73;110;99;111;109;101] in
+  let d0 := of_civil 2020 1 5 in
+  [ SOpen d0 A; SOpen d0 E; SOpen d0 [income; [88]]; SOpen d0 [income; [88; 0]];
+    STxn (mkStxn (d0 + 1) [] [mkBooking [income; [88]] A (mkDec 100 0) [0; 89]] None None);
+    STxn (mkStxn (d0 + 2) [] [mkBooking [income; [88; 0]] A (mkDec 50 0) [89]] None None);
+    STxn (mkStxn (d0 + 40) [] [mkBooking A E (mkDec 1 0) [67;72;70]] None None) ].
+
+Definition unsyn_col : Z := of_civil 2020 1 5 + 40.
+Definition unsyn_com : commodity := [89].
+
+Lemma unsyn_witness :
+  match balance_report unsyn_cfg unsyn_journal, parse_directives unsyn_journal with
+  | COk (r, part), MOk dl =>
+    ~ (rcell equity_account (Some unsyn_col, Some unsyn_com) r ==
+       dvalue (period_amount (mapped_entries unsyn_cfg (user_entries (span part) (periods part) (flat_postings dl) ++
+                 closing_entries (flat_postings dl) (closable_keys (span part) (flat_postings dl)) (p_start (span part)) (periods part)))
+               (acc_eqb equity_account) unsyn_com unsyn_col))%Q
+  | _, _ => False
+  end.
+Proof. vm_compute. intros H. discriminate H. Qed.
+
+Theorem cells_unsyntactic_refuted :
+  exists cfg ds r part dl row c col,
+    bc_valuation cfg = None /\ balance_report cfg ds = COk (r, part) /\ parse_directives ds = MOk dl /\
+    ~ (rcell row (Some col, Some c) r ==
+       dvalue (period_amount (mapped_entries cfg (user_entries (span part) (periods part) (flat_postings dl) ++
+                 (if bc_close cfg
+                  then closing_entries (flat_postings dl) (closable_keys (span part) (flat_postings dl)) (p_start (span part)) (periods part)
+                  else [])))
+               (acc_eqb row) c col))%Q.
+Proof.
+  pose proof unsyn_witness as H.
+  destruct (balance_report unsyn_cfg unsyn_journal) as [[r part]| |] eqn:E1; try contradiction.
+  destruct (parse_directives unsyn_journal) as [dl| |] eqn:E2; try contradiction.
+  exists unsyn_cfg, unsyn_journal, r, part, dl, equity_account, unsyn_com, unsyn_col.
+  split; [reflexivity|]. split; [exact E1|]. split; [exact E2|]. exact H.
+Qed.
